@@ -1,0 +1,50 @@
+//go:build verif
+
+package nasConvert
+
+import (
+	"github.com/free5gc/nas/nasType"
+	"github.com/free5gc/openapi/models"
+)
+
+// Lemma functions for the deductive check in /verif: each composes two converters of this package so that a
+// round-trip statement becomes the postcondition of one function (contracts in verif_contracts.go). They are
+// compiled only with -tags verif and are never called.
+
+func verifLemmaAmfIdRoundTrip(region uint8, set uint16, pointer uint8) (uint8, uint16, uint8, error) {
+	return AmfIdToNasWithError(AmfIdToModels(region, set, pointer))
+}
+
+func verifLemmaAmfIdTextRoundTrip(amfId string) (string, error) {
+	region, set, pointer, err := AmfIdToNasWithError(amfId)
+	if err != nil {
+		return "", err
+	}
+	return AmfIdToModels(region, set, pointer), nil
+}
+
+func verifLemmaPlmnTextRoundTrip(plmnID models.PlmnId) string {
+	return PlmnIDToString(PlmnIDToNas(plmnID))
+}
+
+func verifLemmaPlmnWireRoundTrip(nasBuf []byte) []uint8 {
+	s := PlmnIDToString(nasBuf)
+	return PlmnIDToNas(models.PlmnId{Mcc: s[:3], Mnc: s[3:]})
+}
+
+func verifLemmaGutiWireRoundTrip(buf []byte) (nasType.GUTI5G, error) {
+	_, guti, err := GutiToStringWithError(buf)
+	if err != nil {
+		return nasType.GUTI5G{}, err
+	}
+	return GutiToNasWithError(guti)
+}
+
+func verifLemmaGutiTextRoundTrip(guti string) (string, error) {
+	gutiNas, err := GutiToNasWithError(guti)
+	if err != nil {
+		return "", err
+	}
+	_, s, err := GutiToStringWithError(gutiNas.Octet[:])
+	return s, err
+}
